@@ -343,6 +343,21 @@ def check_sentence(case, rec):
                             f"{type(e).__name__}: {e}", {"kind": "draw_equiv"})
     finally:
         sys.stdout = real_stdout
+    # independent of draw() (which shares the padding helper): the denoted padding size itself
+    Wr, Hr = image.rendered_size
+    want_w, want_h = max(pw, Wr), max(ph, Hr)
+    out_lines = fmt_out.split("\n")
+    if len(out_lines) != want_h:
+        raise Violation(f"{style}: format(image, {spec!r}) has {len(out_lines)} lines, the specifier denotes a padding height of "
+                        f"{ph} around a {Wr}x{Hr} render = {want_h} lines", {"kind": "padded_size", "axis": "height"})
+    if style == "block":
+        import re as _re
+
+        for i, ln in enumerate(out_lines):
+            vis = len(_re.sub(r"\x1b\[[0-9;]*m", "", ln))
+            if vis != want_w:
+                raise Violation(f"{style}: line {i} of format(image, {spec!r}) is {vis} columns wide, the specifier denotes a padding "
+                                f"width of {pw} around a {Wr}x{Hr} render = {want_w} columns", {"kind": "padded_size", "axis": "width"})
     exp = fmt_out + "\x1b[m\n"
     if cap.getvalue() != exp:
         raise Violation(
